@@ -182,6 +182,7 @@ type SubOpts struct {
 	Async  bool `json:"async,omitempty"`
 	Seq    bool `json:"seq,omitempty"`
 	Filter int  `json:"filter,omitempty"`
+	Rev    bool `json:"rev,omitempty"` // pass the options in reverse order (Sequential before Async, ...)
 }
 
 func (w *World) Subscribe(ti, fn int, o SubOpts) error { return w.SubscribeUID(ti, fn, 0, o) }
@@ -200,6 +201,11 @@ func (w *World) SubscribeUID(ti, fn, uid int, o SubOpts) error {
 	}
 	if o.Filter != 0 {
 		opts = append(opts, allTypes[ti].Filt(w, fn, o.Filter))
+	}
+	if o.Rev {
+		for i, j := 0, len(opts)-1; i < j; i, j = i+1, j-1 {
+			opts[i], opts[j] = opts[j], opts[i]
+		}
 	}
 	return allTypes[ti].Sub(w, fn, uid, opts)
 }
